@@ -45,7 +45,7 @@ def run(ctx, replay_case):
     faults = []
     nfields = 0
     for c, b in zip(wf, full):
-        if not b[-1].startswith("R done") or not ds.widths_ok(b, L):
+        if not ds.usable(ctx, c, b, L, ctx.stats.setdefault("inputs", {})):
             continue
         fs = ds.size_faults(c, b, L, rnd, ctx.tier)
         for f in fs:
